@@ -327,7 +327,7 @@ ITEMS = [("UI", n) for n in UI_LENS] + [("I", n) for n in I_LENS] + [
 TAILS = {
     "quick": [("UI", 60), ("UI", 125), ("I", 124), ("RR1", 0), ("RNR", 0),
               ("CC", 0), ("DMsap", 0), ("DMsdp", 0), ("SDRES", 1),
-              ("SDRES", 33), ("SDREQ", 14)],
+              ("SDREQ", 14)],
     "thorough": [("UI", 60), ("UI", 125), ("I", 57), ("I", 124), ("RR", 0),
                  ("RR1", 0), ("RNR", 0), ("CC", 0), ("DISC", 0), ("DMsap", 0),
                  ("DMsdp", 0), ("SDRES", 1), ("SDRES", 33), ("SDREQ", 14)],
@@ -473,6 +473,7 @@ def partitions(tier):
         for it in ITEMS:
             add(1, [it], 3)
             add(0, [it], 2)
+        add(1, [("DMsap0", 0), ("SDRES", 33)], 3)
     else:
         for it in ITEMS:
             add(1, [it], 1)
